@@ -441,6 +441,8 @@ theorem dropShard_ok (d : Data) (id : Nat) (age : Del) (hage : age ≠ .live) (h
 
 theorem copyOwner_ok (d : Data) (id n : Nat) (hok : DataOK d) : DataOK (copyShardOwner d id n) := by
   unfold copyShardOwner
+  split
+  · exact hok
   apply withShardGroup_ok d id _ _ hok
   intro g
   exact shrinks_with g _ g.del (Or.inl rfl)
